@@ -764,3 +764,15 @@ V("c20-walrus-decode-zero", ["C20"], "M", DTY, _AI_OLD, '''        if stripped :
             return int(stripped)
         return _MISSING_INTEGER
 ''', "blank", more=[(DTY, "class AsciiInteger(Adapter):", "_MISSING_INTEGER = 0\n\n\nclass AsciiInteger(Adapter):")])
+
+# ---------------------------------------------------------------- round 12 (feature additions)
+_OI_SIG = "def open_image(mapper, path, *, use_cache=True, create_cache=False, records_per_chunk=None):"
+V("c07-cache-written-under-option", ["C07"], "M", SII, _OI_SIG, "def open_image(mapper, path, *, use_cache=True, create_cache=False, records_per_chunk=None, keep=None):", "C07-G9",
+  more=[(SII, "    group.path = filename_to_groupname(path)", "    group.path = filename_to_groupname(path)\n    if keep is not None:\n        group.data = {k: v for k, v in group.data.items() if k in keep or k == \"data\"}")])
+V("c03-file-name-overrides-record-attr", ["C03"], "M", SII, "    group.path = filename_to_groupname(path)", "    group.path = filename_to_groupname(path)\n    group.attrs |= {\"scan_id\": int(decode_filename(path).get(\"scan_number\") or 0)}", "C03-T9")
+V("c03-eq-extra-attr", ["C03", "C13", "C12"], "E", SII, "    group.path = filename_to_groupname(path)", "    group.path = filename_to_groupname(path)\n    group.attrs |= {\"polarization\": decode_filename(path).get(\"polarization\")}")
+V("c15-orbit-six-digits", ["C15"], "M", DCD, "(?P<orbit_accumulation>[0-9]{5})", "(?P<orbit_accumulation>[0-9]{5,6})", "ValueError")
+V("c13-environment-overrides-option", ["C13"], "M", IOO, "    mapper = fsspec.get_mapper(path, **storage_options)", "    create_cache = create_cache or os.environ.get(\"CEOS_ALOS2_CREATE_CACHE\", \"\") == \"1\"\n    mapper = fsspec.get_mapper(path, **storage_options)", "create_cache",
+  more=[(IOO, "import fsspec\n", "import os\n\nimport fsspec\n")])
+V("c13-eq-environment-default", ["C13", "C10", "C18"], "E", IOO, "    mapper = fsspec.get_mapper(path, **storage_options)", "    debug = os.environ.get(\"CEOS_ALOS2_DEBUG\", \"\") == \"1\"\n    mapper = fsspec.get_mapper(path, **storage_options)",
+  more=[(IOO, "import fsspec\n", "import os\n\nimport fsspec\n")])
